@@ -128,6 +128,22 @@ def non_additive(xs):
 
 def prefix(v):
     return str(v.id).startswith("VAR")
+
+def _first_of(*args):
+    return len(args[:1])
+
+def splat_slice(xs):
+    return _first_of(*xs)
+
+def _has(x, *args):
+    return 1 if x in args else 0
+
+def splat_member(xs):
+    return _has(7, *xs)
+
+def key_text(xs):
+    t = (len(xs), 3)
+    return str(t).replace(" ", "")
 '''
 
 
@@ -207,6 +223,11 @@ def main():
         ("twice", lambda xs, r: r == 2 * seq_sum(xs, lo), "REFUTED"),
         ("non_additive", lambda xs, r: r == 1, "UNSUPPORTED"),
         ("prefix", lambda xs, r: r == False, "REFUTED-OR-UNDECIDED"),     # nothing is known about the id: not provable
+        # a native tuple made by *args from an abstract sequence: positional access / membership must be refused
+        ("splat_slice", lambda xs, r: r == 1, "UNSUPPORTED"),
+        ("splat_member", lambda xs, r: r == 0, "UNSUPPORTED"),
+        # str() of a built-in container with symbolic parts must be refused (it would spell out placeholder names)
+        ("key_text", lambda xs, r: True, "UNSUPPORTED"),
     ]
     bad = 0
     for fn, post, want in expect:
